@@ -272,7 +272,7 @@ pub fn run(ctx: &mut Ctx) {
         }
     }
     // (2) random vocabulary-consistent values
-    let n = ctx.share(240_000, 9_000_000);
+    let n = ctx.share(240_000, 5_000_000);
     let gens: Vec<LexGen> = ALL_FMT.iter().map(|f| LexGen::new(*f, false)).collect();
     for i in 0..n {
         if ctx.out_of_time() {
